@@ -17,7 +17,7 @@ const (
 	kLive  = 1
 	kDying = 2 // mark destroyed by the kernel; its IN_IGNORED (and stale events) may still be queued
 
-	verifMaxMarks = 5
+	verifMaxMarks = 8
 	verifFd       = 7
 )
 
@@ -53,13 +53,14 @@ type verifKernel struct {
 	lastIno    int
 	lastRmFd   int
 	lastRmWd   uint32
-	rmLog      [8]uint32
+	rmLog      [12]uint32
 	addResolve int // -1: chosen by the model; >=0: forced inode
 	script     [4]verifRead
 	nScript    int
 	blockAfter bool // after the script: block until the file is closed (else return os.ErrClosed)
 	walk       []verifWalkEnt
 	walkErr    error
+	file       *os.File
 }
 
 type verifWalkEnt struct {
@@ -67,16 +68,42 @@ type verifWalkEnt struct {
 	isDir bool
 }
 
-var verifK verifKernel
+// Two independent inotify instances (C14 runs two watchers side by side);
+// verifK is instance 0, which every single-watcher harness uses.
+var verifKs [2]verifKernel
+var verifK = &verifKs[0]
+
+func verifKOfFd(fd int) *verifKernel {
+	if fd == verifFd+1 {
+		return &verifKs[1]
+	}
+	return &verifKs[0]
+}
+
+func verifKOfFile(f *os.File) *verifKernel {
+	if verifKs[1].file != nil && verifKs[1].file == f {
+		return &verifKs[1]
+	}
+	return &verifKs[0]
+}
+
+// verifAddSeq, when set, picks the inode each successive add_watch resolves to.
+var verifAddSeq func() int
 
 func verifKReset() {
-	verifK = verifKernel{fd: verifFd, nIno: 3, addResolve: -1, closedCh: make(chan struct{})}
+	verifAddSeq = nil
+	verifInitSeq = 0
+	verifKs[0] = verifKernel{fd: verifFd, nIno: 3, addResolve: -1, closedCh: make(chan struct{})}
+	verifKs[1] = verifKernel{fd: verifFd + 1, nIno: 3, addResolve: -1, closedCh: make(chan struct{})}
 }
+
+var verifInitSeq int
 
 var verifAddErrnos = [...]unix.Errno{unix.ENOENT, unix.ENOTDIR, unix.ELOOP, unix.ENAMETOOLONG, unix.ENOSPC, unix.EACCES}
 
 func verifInotifyInit1(flags int) (int, error) {
-	k := &verifK
+	k := &verifKs[verifInitSeq%2] // successive instances
+	verifInitSeq++
 	k.initCalls++
 	if k.initFail {
 		return -1, unix.EMFILE
@@ -85,19 +112,23 @@ func verifInotifyInit1(flags int) (int, error) {
 }
 
 func verifNewFile(fd uintptr, name string) *os.File {
-	verifK.newFiles++
-	return &os.File{}
+	k := verifKOfFd(int(fd))
+	k.newFiles++
+	k.file = &os.File{}
+	return k.file
 }
 
 func verifInotifyAddWatch(fd int, path string, mask uint32) (int, error) {
-	k := &verifK
+	k := verifKOfFd(fd)
 	k.addCalls++
 	k.lastPath, k.lastMask, k.lastAddFd = path, mask, fd
 	if k.closed || fd != k.fd {
 		return -1, unix.EBADF
 	}
 	r := k.addResolve
-	if r < 0 {
+	if verifAddSeq != nil {
+		r = verifAddSeq()
+	} else if r < 0 {
 		// adversarial file system: the path resolves to any inode, or fails
 		r = verifChoose("add.resolve", k.nIno+1)
 	}
@@ -129,7 +160,7 @@ func verifInotifyAddWatch(fd int, path string, mask uint32) (int, error) {
 }
 
 func verifInotifyRmWatch(fd int, wd uint32) (int, error) {
-	k := &verifK
+	k := verifKOfFd(fd)
 	if k.rmCalls < len(k.rmLog) {
 		k.rmLog[k.rmCalls] = wd
 	}
@@ -149,7 +180,7 @@ func verifInotifyRmWatch(fd int, wd uint32) (int, error) {
 }
 
 func verifRmLogged(wd uint32) bool {
-	k := &verifK
+	k := verifK
 	for i := 0; i < k.rmCalls && i < len(k.rmLog); i++ {
 		if k.rmLog[i] == wd {
 			return true
@@ -159,7 +190,7 @@ func verifRmLogged(wd uint32) bool {
 }
 
 func verifInotifyRead(f *os.File, b []byte) (int, error) {
-	k := &verifK
+	k := verifKOfFile(f)
 	i := k.reads
 	k.reads++
 	if k.closed {
@@ -184,7 +215,7 @@ func verifInotifyRead(f *os.File, b []byte) (int, error) {
 var verifFillBuffer = func(i int, b []byte, n int) {}
 
 func verifFileClose(f *os.File) error {
-	k := &verifK
+	k := verifKOfFile(f)
 	k.closeCalls++
 	if k.closed {
 		return os.ErrClosed
@@ -198,7 +229,7 @@ func verifFileClose(f *os.File) error {
 }
 
 func verifWalkDir(root string, fn fs.WalkDirFunc) error {
-	k := &verifK
+	k := verifK
 	if k.walkErr != nil {
 		return fn(root, nil, k.walkErr)
 	}
@@ -221,14 +252,19 @@ func (d verifDirEnt) Type() fs.FileMode          { return 0 }
 func (d verifDirEnt) Info() (fs.FileInfo, error) { return nil, nil }
 
 // verifNewInotify builds a watcher value directly (no NewWatcher, no reader goroutine).
-func verifNewInotify(evCap int) *inotify {
-	ev, errs := make(chan Event, evCap), make(chan error, 8)
+func verifNewInotify(evCap int) *inotify { return verifNewInotifyN(0, evCap, 8) }
+
+// verifNewInotifyN builds watcher instance inst with the given channel capacities.
+func verifNewInotifyN(inst, evCap, errCap int) *inotify {
+	ev, errs := make(chan Event, evCap), make(chan error, errCap)
+	f := &os.File{}
+	verifKs[inst].file = f
 	return &inotify{
 		shared:      newShared(ev, errs),
 		Events:      ev,
 		Errors:      errs,
-		fd:          verifFd,
-		inotifyFile: &os.File{},
+		fd:          verifFd + inst,
+		inotifyFile: f,
 		watches:     newWatches(),
 		doneResp:    make(chan struct{}),
 	}
